@@ -606,3 +606,44 @@ def fam_pairs():
     for i, (n, p) in enumerate(closed[::7]):
         out.append(("pair:wrap-prepend:" + n, p, wrap_in_function(prepend_literals(p, i))))
     return out
+
+
+# ------------------------------------------------------------------ C17: retained sessions
+SESSION_LINES = [
+    ("decl", "stel a = %s" % H0),
+    ("upd", "a = a + %s; a" % H1),
+    ("derive", "stel b = a * 2; b"),
+    ("index", "[a, 7][%s]" % H2),
+    ("text", 'stel s = "xy"; s[0] = "q"; s'),
+    ("usetext", "s"),
+    ("fn", "functie f(n) { n * 2 }; f(%s)" % H1),
+    ("loop", "stel i = 0; zolang i < 2 { i += 1; }; i"),
+    ("undecl", "nope + 1"),
+    ("undecl-in-block", "1; als ja { 2; nope }"),
+    ("fail-in-fn", "functie h() { [1][5] }; h()"),
+    ("parse-error", "stel c = )"),
+    ("undecl-in-fn-loop", "functie g() { zolang ja { nope } }"),
+    ("array", "stel v = [a, 2.5, \"t\"]; v"),
+    ("usearray", "v[0] = 9; v"),
+    ("callfn", "f(4)"),
+]
+
+
+def fam_sessions(max_len=3, names=None):
+    """all sessions of up to max_len lines over the line alphabet"""
+    import itertools as it
+    alpha = [x for x in SESSION_LINES if names is None or x[0] in names]
+    out = []
+    for n in range(1, max_len + 1):
+        for seq in it.product(alpha, repeat=n):
+            out.append(("sess:" + ">".join(x[0] for x in seq), [x[1] for x in seq]))
+    return out
+
+
+def fam_sessions_random(seed, n, length):
+    out = []
+    for i in range(n):
+        rng = random.Random((seed + 7) * 7919 + i)
+        seq = [rng.choice(SESSION_LINES) for _ in range(length)]
+        out.append(("sess-rnd:%d:%s" % (seed, ">".join(x[0] for x in seq)), [x[1] for x in seq]))
+    return out
